@@ -221,12 +221,31 @@ func (p KV) String() string {
 	return p.K
 }
 
+// splitOutsideQuotes cuts s at every sep that is not inside a quoted string.
+func splitOutsideQuotes(s string, sep byte) []string {
+	var out []string
+	q := false
+	start := 0
+	for i := 0; i < len(s); i++ {
+		switch {
+		case q && s[i] == '\\':
+			i++
+		case s[i] == '"':
+			q = !q
+		case s[i] == sep && !q:
+			out = append(out, s[start:i])
+			start = i + 1
+		}
+	}
+	return append(out, s[start:])
+}
+
 func parseParams(s string) []KV {
 	var out []KV
 	if s == "" {
 		return nil
 	}
-	for _, p := range strings.Split(s, ";") {
+	for _, p := range splitOutsideQuotes(s, ';') {
 		p = strings.TrimSpace(p)
 		if p == "" {
 			continue
